@@ -285,10 +285,11 @@ for _u in UNITS:
     if _u.name in OBSERVED:
         _u.min_obl = max(1, int(0.7 * OBSERVED[_u.name]))
 
-# ---- STRETCH (thorough): stepwise congruence r == a b (mod p) of fe_mul_inner relative to the uninterpreted multiplier
+# ---- STRETCH (thorough): stepwise congruence r == a b (mod p) of fe_mul_inner relative to the uninterpreted multiplier (see arith_fecong.c)
 FC = "harness/C05/arith_fecong.c"
-UNITS.append(U("C05.fe_mul_cong_steps", ["C05"], FC, "h_fe_mul_cong_steps", defs=["CONG_STEPS=1"], functions=[], tier="thorough", timeout=1800, replay=False, solver="cadical",
-               note="chain of comment invariants of fe_mul_inner in the harness-side witness computation; each segment proved from the previous invariant alone"))
-UNITS.append(U("C05.fe_mul_cong_sum", ["C05"], FC, "h_fe_mul_cong_sum", functions=[], tier="thorough", timeout=1800, replay=False, solver="cadical"))
+UNITS.append(U("C05.fe_mul_cong_steps", ["C05"], FC, "h_fe_mul_cong_steps", defs=["CONG_OBL=1"], functions=[], tier="thorough", timeout=1800, replay=False, solver="cadical",
+               note="every bracket of the function's comment invariants equals the rule book, for the harness-side witness run"))
 UNITS.append(U("C05.fe_mul_cong_miter", ["C05"], FC, "h_fe_mul_cong_miter", verify=True, replace=UF, functions=["secp256k1_fe_mul_inner"], tier="thorough", timeout=1800, replay=False, solver="cadical",
-               note="real fe_mul_inner output == witness output; K < 2^320"))
+               note="real fe_mul_inner output == witness output"))
+UNITS.append(U("C05.fe_mul_cong_rule", ["C05"], FC, "h_fe_mul_cong_rule", functions=[], tier="thorough", timeout=1800, replay=False, solver="cadical",
+               note="the four bookkeeping rules change G(e) = sum e_k 2^(52k) as stated, for arbitrary coefficient vectors"))
